@@ -58,6 +58,8 @@ pub fn generate(check: &str, tier: &str, seed: u64, run: u64) -> Case {
         return Case { program: ws[run as usize].1.clone(), config };
     }
     let program = match check {
+        "C08" if run % 6 == 3 => crate::gen::gen_wait_loops(&mut rng),
+        "C05" if run % 12 == 3 => crate::gen::gen_wait_loops(&mut rng),
         "C03" if run % 12 == 5 => crate::gen::gen_many_stores_mp(&mut rng, false),
         "C04" if run % 12 == 5 => crate::gen::gen_many_stores_mp(&mut rng, true),
         "C02" | "C03" => gen_litmus_any(&mut rng, thorough),
@@ -80,8 +82,6 @@ pub fn generate(check: &str, tier: &str, seed: u64, run: u64) -> Case {
             let pr = sync_profile(&mut rng, "lock");
             gen_sync(&mut rng, &pr)
         }
-        "C08" if run % 6 == 3 => crate::gen::gen_wait_loops(&mut rng),
-        "C05" if run % 12 == 3 => crate::gen::gen_wait_loops(&mut rng),
         "C08" => {
             let pr = sync_profile(&mut rng, "wait");
             gen_sync(&mut rng, &pr)
